@@ -687,8 +687,9 @@ def dependent_lt_is_antisymmetric(ctx):
             return o
 
         vals = [ANY, "X", "Y"]
-        vecs = [v for k in (1, 2) for v in itertools.product(vals, repeat=k)]
+        vecs = [v for k in (1, 2, 3) for v in itertools.product(vals, repeat=k)]
         bad = None
+        wider = None
         cnt = 0
         for a in vecs:
             for b in vecs:
@@ -700,7 +701,16 @@ def dependent_lt_is_antisymmetric(ctx):
                     continue
                 if ab and ba and bad is None:
                     bad = (a, b)
+                if ab and len(a) == len(b) and any(x is ANY and y is not ANY for x, y in zip(a, b)) and wider is None:
+                    wider = (a, b)
         show = lambda v: "(" + ", ".join("Any" if x is ANY else x for x in v) + ")"  # noqa: E731
+        ctx.ob(
+            f"{m.key}:narrower-everywhere",
+            m.loc(),
+            f"`{c.name}.__lt__` holds only when the left pattern is nowhere more general than the right one (a wildcard on the left against a fixed parameter on the right rules it out; {cnt} parameter pairs interpreted)",
+            wider is None,
+            f"parameters {show(wider[0])} < {show(wider[1])} holds although the left pattern has a wildcard where the right one is fixed: the two accept values the other rejects, yet one is preferred, so a value satisfying both runs one method silently instead of raising the ambiguity error" if wider else "",
+        )
         ctx.ob(
             f"{m.key}:antisymmetric",
             m.loc(),
@@ -1873,3 +1883,16 @@ def type_written_twice_is_one_type(ctx):
             not problems,
             "; ".join(problems) + ": the same annotation written in two places gives two signatures - a re-registration does not replace the method it repeats, the order of the two is MORE in both directions, and a type registered once is looked up as missing",
         )
+
+
+# ---------------------------------------------------------------------------------------- the signature extraction, executed
+def signature_positions_are_real(ctx):
+    from . import sigexec
+
+    sigexec.law(ctx, "positions", "is-method")
+
+
+def signature_describes_the_method(ctx):
+    from . import sigexec
+
+    sigexec.law(ctx, "positions", "counts", "types", "is-method", "rejects-varargs")
